@@ -93,17 +93,17 @@ PROPS = {
         "floors": {"quick": {"C09.usable/pyth": 1000, "C09.usable/switchboard": 1000, "C09.usable/staked": 300, "C09.must_reject/pyth/Stale": 300, "C09.must_reject/switchboard/Stale": 300, "C09.bias_pairs_checked": 5000, "C09.venue_prices_compared": 3000, "C09.venue/kamino/must_reject": 500, "C09.venue/drift/must_reject": 500, "C09.venue/solend/must_reject": 500}},
     },
     "C15": {
-        "engines": [direct("C15", sq=4, st=8)],
-        "rule": "shard 0: breadth-first exploration of the region graph of the real PanicState transition functions (12 time deltas at the 30 min / 24 h boundaries x 3 operations) normalised by time translation; other shards: random walks with arbitrary deltas; every transition is judged online; distinct = normalised states",
-        "assumptions": ["the direct rig mirrors the three pause handlers as calls on PanicState; the wiring of the handlers themselves is exercised by the C14 chain check"],
-        "floors": {"quick": {"C15.bfs_states": 1000, "C15.pause_accepted": 100000, "C15.permissionless_unpause": 10000}},
+        "engines": [direct("C15", sq=4, st=8), storm("pause-chain", sq=4, st=4)],
+        "rule": "direct engine, shard 0: breadth-first exploration of the region graph of the real PanicState transition functions (12 time deltas at the 30 min / 24 h boundaries x 3 operations) normalised by time translation; other shards: random walks with arbitrary deltas; every transition is judged online; distinct = normalised states. pause-chain engine (chain rig): the three real pause instructions executed as transactions in long random sequences (fee admin and strangers ordering pauses, admin and permissionless unpauses, propagations, clock steps at the 30 min / 24 h boundaries +-1 s); every accepted instruction is judged on the global pause state before/after (30/60 minute bounds, three per daily window, flags), every rejected unpause against 'never fails while a flag is set / once expired'",
+        "assumptions": ["the direct rig mirrors the three pause handlers as calls on PanicState; the handlers themselves are executed by the pause-chain engine and their effect on user instructions by the C14 check"],
+        "floors": {"quick": {"C15.bfs_states": 1000, "C15.pause_accepted": 100000, "C15.permissionless_unpause": 10000, "C15.chain_accepted/PanicPause": 1500, "C15.chain_accepted/PanicUnpause": 400, "C15.chain_accepted/PanicUnpausePermissionless": 300}},
         "exhaustive_note": "exhaustive over the stated alphabet up to the depth bound reported in notes",
     },
     "C18": {
-        "engines": [direct("C18")],
-        "rule": "each evaluation is one (configuration accepted by the program's validate(), utilisation) pair evaluated with the real rate calculator; utilisations = every breakpoint +-{0,1,2} ulps, 0, 1, >1 and a random grid; distinct = (shape class, number of points, flat curve, point at 100%)",
+        "engines": [direct("C18", sq=12, st=12), storm("admin", sq=4, st=4)],
+        "rule": "direct engine: each evaluation is one (configuration accepted by the program's validate(), utilisation) pair evaluated with the real rate calculator; utilisations = every breakpoint +-{0,1,2} ulps, 0, 1, >1 and a random grid; distinct = (shape class, number of points, flat curve, point at 100%). admin engine (chain rig): every interest configuration an accepted instruction leaves on a bank (configure, interest-only configure with hostile / partial arguments by entitled and other signers) is judged structurally: zero-utilisation rate <= rates of the used points (strictly increasing utilisation, no point after padding) <= full-utilisation rate",
         "assumptions": ["legacy three-point curves are judged on [0,1] only (out-of-range utilisations are counted, not judged)"],
-        "floors": {"quick": {"C18.configs_accepted/valid-random": 200, "C18.configs_accepted/adjacent-utils": 200, "C18.configs_accepted/extreme-rates": 200, "C18.configs_accepted/legacy": 50, "C18.configured_points_checked": 2000}},
+        "floors": {"quick": {"C18.configs_accepted/valid-random": 200, "C18.configs_accepted/adjacent-utils": 200, "C18.configs_accepted/extreme-rates": 200, "C18.configs_accepted/legacy": 50, "C18.configured_points_checked": 2000, "C18.accepted_interest_configs/ConfigureBankInterestOnly": 300}},
     },
     "C20": {
         "engines": [direct("C20", sq=10, st=10), storm("venue", sq=4, st=4), dict(storm("venue-wrapcheck", sq=2, st=2), profile="dbgassert")],
